@@ -67,6 +67,9 @@ type Check struct {
 
 var Registry = map[string]*Check{}
 
+// CustomReplays: replay strategies beyond the generic native harness replay.
+var CustomReplays = map[string]func(ctx *RunCtx, e Entry, v engine.Violation, dir string) (bool, string){}
+
 func Register(c *Check) { Registry[c.ID] = c }
 
 // KnownFinding is one line of known_findings.jsonl.
@@ -272,6 +275,9 @@ func runEntries(ctx *RunCtx) error {
 		if e.Tiers != "" && e.Tiers != ctx.Tier {
 			continue
 		}
+		if only := os.Getenv("VERIF_ONLY"); only != "" && only != e.Func {
+			continue
+		}
 		fn := prog.Func(e.PkgPath, e.Func)
 		if fn == nil {
 			return fmt.Errorf("harness entry %s.%s not found", e.PkgPath, e.Func)
@@ -284,6 +290,9 @@ func runEntries(ctx *RunCtx) error {
 			if ctx.Tier == "thorough" {
 				opt.TimeoutMs = 60000
 			}
+		}
+		if mp, _ := strconv.Atoi(os.Getenv("VERIF_MAXPATHS")); mp > 0 {
+			opt.MaxPaths = mp
 		}
 		w := e.Workers
 		if w == 0 {
@@ -366,6 +375,9 @@ func replayNative(ctx *RunCtx, e Entry, v engine.Violation, dir string) (bool, s
 	if e.Replay == "model" {
 		os.WriteFile(filepath.Join(dir, "README.txt"), []byte("model-level counterexample (kernel-model fault/crash schedule); see inputs.json\n"), 0o644)
 		return true, "model-level counterexample: " + v.Detail
+	}
+	if f, ok := CustomReplays[e.Replay]; ok {
+		return f(ctx, e, v, dir)
 	}
 	ov, err := overlayFor(ctx.Check, true)
 	if err != nil {
